@@ -67,7 +67,9 @@ class ExprGen:
 
     def str_literal(self):
         r = self.rng
-        return r.choice(["a", "b", "prod", "x-y", "", "TRUE", "False", "true", "12", "arn:aws:s3:::b", "eu-west-1", "AMI", "a,b,c", "é", "{{resolve:ssm:/cfg/db:2}}", "{{resolve:ssm:none:1}}", 7, True, False])
+        return r.choice(["a", "b", "prod", "x-y", "", "TRUE", "False", "true", "12", "arn:aws:s3:::b", "eu-west-1", "AMI", "a,b,c", "é", "{{resolve:ssm:/cfg/db:2}}", "{{resolve:ssm:none:1}}", 7, True, False,
+                         # texts whose base64 uses the last two letters of the alphabet (+ and /) and padding
+                         "???", "~~~", ">>>?", "ls /opt/???>>out", "\u00ff\u00fe", "subjects?_d=1"])
 
     def str_param(self):
         names = list(STR_PARAMS) + ["AWS::Region", "AWS::AccountId", "AWS::StackName"] + (list(RAW_PARAMS) if self.raw else [])
